@@ -76,6 +76,10 @@ TNext ==
                     /\ IF r.res # "ok" THEN Fail("UsableOrNoop:report-panicked") ELSE TRUE
                ELSE /\ UNCHANGED vars
                     /\ Fail("Drift:report-on-unknown-handle")
+       [] r.e = "bulk" ->
+            (* a burst of samples for one bucket in one pass: the exposed count is the sum of the reported counts *)
+            /\ UNCHANGED <<vars, hmap, cbObs, cbSum>>
+            /\ IF r.exposed # r.reported THEN Fail("Exposed:burst-of-samples-in-one-pass") ELSE TRUE
        [] r.e = "cbtotal" ->
             (* callbacks counted over a whole (concurrent) case: as many as the model's rejected registrations *)
             /\ UNCHANGED <<vars, hmap, cbObs, cbSum>>
